@@ -47,6 +47,8 @@ class Ctx:
     def _on(self, rid):
         if any(rid == p or rid.startswith(p) for p in getattr(self, "only_skip", ())):
             return False
+        if rid.startswith("STATE."):
+            return True    # hidden shared state is a necessary condition of every property (rules/statics.py)
         return self.only is None or any(rid == p or rid.startswith(p) for p in self.only)
 
     # ---- bookkeeping
